@@ -1,4 +1,57 @@
-From AK Require Import Base.Prelude Bytes.FabHeaderProofs.
-Theorem C15_stub : forall z, Text.py_int (Text.str_of_Z z) = Some z.
-Proof. exact py_int_str_of_Z. Qed.
-Print Assumptions C15_stub.
+(* C15 - level iteration yields every box exactly once, whatever the
+   schedule.  Statements only. *)
+From AK Require Import Base.Prelude Bytes.Text Bytes.FabHeader Bytes.BinFile
+  Reader.Select Reader.BoxRead Reader.Level Reader.ReadSpec Reader.ReadProofs
+  Reader.LayoutProofs Reader.GetItemProofs Reader.IterProofs Props.C01.
+From Coq Require Import Permutation.
+
+(* The sequential scan of one binary file returns the specified read of
+   every FAB of the file, in file order, and then stops at end of file
+   (completeness and termination; no bound on the number of FABs). *)
+Theorem C15_scan_file : forall (fs : list fab) (a : farg) (rs : list arr),
+  forallb fab_ok fs = true ->
+  omap_all (fun fb => spec_read fb a) fs = Some rs ->
+  read_bfile (encode_file fs) a = rs.
+Proof. exact read_bfile_spec. Qed.
+Print Assumptions C15_scan_file.
+
+(* Every box is stored exactly once over all the binary files of a level. *)
+Theorem C15_files_partition : forall lv, wf_level lv = true ->
+  Permutation (concat (map (fun nf => file_fabs lv (snd nf)) (lv_files lv))) (lv_fabs lv).
+Proof. exact files_partition. Qed.
+Print Assumptions C15_files_partition.
+
+(* The chained iterator does not stop early when every file yields data. *)
+Theorem C15_chain : forall (ls : list (list arr)),
+  Forall (fun l => l <> []) ls -> chain_iter ls = concat ls.
+Proof. exact chain_iter_concat. Qed.
+Print Assumptions C15_chain.
+
+(* Main statement: iterating a field selection over a level yields every box
+   of the level exactly once with its specified data - a permutation of the
+   per-box reads - however the boxes are spread over binary files and
+   ordered inside them.  The per-file tasks are delivered by an ordered
+   imap, so the model has no dependence on the schedule at all (the yielded
+   sequence is a function of the directory content only). *)
+Theorem C15_iterate_level : forall lv cells a rs,
+  wf_level lv = true -> lv_cells lv = Some cells -> lv_fabs lv <> [] ->
+  omap_all (fun fb => spec_read fb a) (lv_fabs lv) = Some rs ->
+  exists out, stream_iter_all (lv_disk lv) cells a = Some out /\ Permutation out rs.
+Proof. exact stream_iter_all_perm. Qed.
+Print Assumptions C15_iterate_level.
+
+(* The on-demand iterator over a box selection yields the selected boxes in
+   the requested order: it is the same pairing of selection and reads as the
+   indexing interface (C01_getitem / C01_order). *)
+Theorem C15_iter_selection : forall lv cells a s,
+  wf_level lv = true -> lv_cells lv = Some cells ->
+  (forall fb, In fb (lv_fabs lv) -> exists r, spec_read fb a = Some r) ->
+  stream_getitem (lv_disk lv) cells a s = spec_getitem lv a s.
+Proof. exact stream_getitem_spec. Qed.
+Print Assumptions C15_iter_selection.
+
+Example C15_nonvacuous :
+  exists out, stream_iter_all (lv_disk AK.Props.C01.ex_level)
+                (match lv_cells AK.Props.C01.ex_level with Some c => c | None => [] end) (FInt 0) = Some out
+              /\ length out = 3%nat.
+Proof. eexists. split; vm_compute; reflexivity. Qed.
